@@ -227,7 +227,7 @@ def run(ctx):
                 "parents, nesting, names with spaces) x runtime x root x xargs x tag; each run natively and "
                 "under the fake runtime; non-trivial = at least one host path remapped in the argv; "
                 "distinct = distinct generated case")
-    results = ctx.pmap("vp.props.c27:batch", batches, nproc=8 if quick else 16,
+    results = ctx.pmap("vp.props.c27:batch", batches, nproc=int(os.environ.get("VP_NPROC") or (8 if quick else 16)),
                        timeout=300 if quick else 7200)
     hist = {}
     for b in results:
